@@ -32,8 +32,21 @@ struct Counters {
     done: Arc<Mutex<u64>>,
     /// closure level (every router): the registered closure ran, keyed by route name
     closures: Arc<Mutex<BTreeMap<String, u64>>>,
+    /// `/gate_b` handlers park here until the scenario opens the gate
+    gate: Arc<(Mutex<bool>, std::sync::Condvar)>,
 }
 impl Counters {
+    fn closure_count(&self, k: &str) -> u64 {
+        self.closures.lock().unwrap().get(k).copied().unwrap_or(0)
+    }
+    fn open_gate(&self) {
+        *self.gate.0.lock().unwrap() = true;
+        self.gate.1.notify_all();
+    }
+    fn wait_gate(&self) {
+        let g = self.gate.0.lock().unwrap();
+        let _ = self.gate.1.wait_timeout_while(g, Duration::from_secs(30), |open| !*open);
+    }
     fn closure(&self, k: &str) {
         *self.closures.lock().unwrap().entry(k.to_string()).or_insert(0) += 1;
     }
@@ -96,6 +109,35 @@ impl Device {
     fn add(&self, v: Vec<i64>) -> i64 {
         v.iter().fold(0i64, |a, b| a.wrapping_add(*b))
     }
+}
+
+/// A struct mount that is a binary tree 40 levels deep (children `n` and `m` at every node) and stateless: a path of
+/// existing segments is answered with its depth and the segments the handler was given, anything else is an invalid
+/// path. Deep paths (15..40 segments) that exist and deep paths whose k-th segment does not exist both occur.
+struct Tree;
+const TREE_DEPTH: usize = 40;
+impl repe::RepeStruct for Tree {
+    fn repe_handle(&mut self, segments: &[&str], body: Option<Value>) -> Result<Option<Value>, repe::StructError> {
+        if segments.len() > TREE_DEPTH || segments.iter().any(|s| *s != "n" && *s != "m") {
+            return Err(repe::StructError::InvalidPath { path: segments.iter().map(|s| format!("/{s}")).collect() });
+        }
+        Ok(Some(match body {
+            None => json!({"depth": segments.len(), "segs": segments}),
+            Some(b) => json!({"depth": segments.len(), "segs": segments, "body": b}),
+        }))
+    }
+}
+/// What the tree answers for the pointer below its mount, by RFC 6901 (split on '/', `~1` then `~0` unescaped).
+fn tree_expect(relative: &str, body: Option<Value>) -> Exp {
+    let segs: Vec<String> = if relative.is_empty() { vec![] } else { relative[1..].split('/').map(|t| t.replace("~1", "/").replace("~0", "~")).collect() };
+    if segs.len() > TREE_DEPTH || segs.iter().any(|s| s != "n" && s != "m") {
+        return Exp::Ec(6);
+    }
+    let v = match body {
+        None => json!({"depth": segs.len(), "segs": segs}),
+        Some(b) => json!({"depth": segs.len(), "segs": segs, "body": b}),
+    };
+    Exp::Ok { bfmt: 2, body: serde_json::to_vec(&v).unwrap() }
 }
 
 const OWN_QUERY: &[u8] = b"/own/query";
@@ -180,6 +222,7 @@ const EXACT: &[RouteSpec] = &[
     rs("/slow_b", HK::Json, 3, true),
     rs("/panic_b", HK::Json, 4, true),
     rs("/panic", HK::Json, 4, false),
+    rs("/gate_b", HK::Json, 5, true),
     rs("/json_ctx", HK::JsonCtx, 0, false),
     rs("/json_ctx_b", HK::JsonCtx, 0, true),
     rs("/push_ctx", HK::JsonCtx, 1, false),
@@ -195,7 +238,8 @@ const EXACT: &[RouteSpec] = &[
     rs("/adapter", HK::Adapter, 0, false),
     rs("/custom", HK::Custom, 0, false),
 ];
-const MOUNTS: &[(&str, HK)] = &[("/reg", HK::Registry), ("/de", HK::Registry), ("/re", HK::Registry), ("/dev", HK::Struct), ("/devrw", HK::Struct)];
+/// (mount point, kind, variant): struct variant 1 is the stateless 40-level tree
+const MOUNTS: &[(&str, HK, u8)] = &[("/reg", HK::Registry, 0), ("/de", HK::Registry, 0), ("/re", HK::Registry, 0), ("/dev", HK::Struct, 0), ("/devrw", HK::Struct, 0), ("/tree", HK::Struct, 1)];
 
 /// The lookup rule the property states (exact path wins; a mount gets its prefix itself or an extension at a '/'
 /// boundary; registries before structs, in registration order) — independent of `Router::get`.
@@ -205,9 +249,9 @@ fn expected_route(path: &str) -> Option<RouteSpec> {
     }
     let hit = |m: &str| path == m || (path.starts_with(m) && path.as_bytes().get(m.len()) == Some(&b'/'));
     for want in [HK::Registry, HK::Struct] {
-        for (m, hk) in MOUNTS {
+        for (m, hk, var) in MOUNTS {
             if *hk == want && hit(m) {
-                return Some(RouteSpec { path: m, hk: *hk, var: 0, blocking: false });
+                return Some(RouteSpec { path: m, hk: *hk, var: *var, blocking: false });
             }
         }
     }
@@ -289,6 +333,7 @@ fn make_router(c: &Counters, wrapped: bool) -> Router {
     let c_slowb = c.clone();
     let c_panic = c.clone();
     let c_panic2 = c.clone();
+    let c_gate = c.clone();
     let mut router = Router::new()
         .with_json("/json", mk("/json", c))
         .with("/alias", mk("/alias", c))
@@ -346,11 +391,17 @@ fn make_router(c: &Counters, wrapped: bool) -> Router {
                 _ => Ok(json!("calm")),
             }
         })
+        .with_json_blocking("/gate_b", move |v| {
+            c_gate.closure("/gate_b");
+            c_gate.wait_gate();
+            Ok(json!({"gated": v}))
+        })
         .with_json_ctx_blocking("/json_ctx_b", mkctx("/json_ctx_b", c))
         .with_typed_blocking::<TIn, TOut, _>("/typed_b", mkt("/typed_b", c))
         .with_typed_ctx_blocking::<TIn, TOut, _>("/typed_ctx_b", mktctx("/typed_ctx_b", c))
         .with_struct("/dev", Device { gain: 3, label: "x".into() });
     let router = router.with_struct_shared::<Device, RwLock<Device>>("/devrw", Arc::new(RwLock::new(Device { gain: 3, label: "x".into() })));
+    let (router, _tree) = router.with_struct("/tree", Tree);
     if wrapped {
         router.with_middleware(gate_mw)
     } else {
@@ -512,6 +563,7 @@ fn expected_outcome(rt: &RouteSpec, path: &str, bfmt: u16, body: &[u8]) -> Outco
                     2 => done(Exp::Ok { bfmt: 2, body: b"\"end\"".to_vec() }),
                     3 => done(Exp::Ok { bfmt: 2, body: b"\"slow\"".to_vec() }),
                     4 => Outcome { dec: DecClass::Ok, exp: Exp::Stateful, closure: Some(name), cl: "any".into() },
+                    5 => done(Exp::Ok { bfmt: 2, body: serde_json::to_vec(&json!({"gated": v})).unwrap() }),
                     _ => {
                         if v.get("fail").is_some() {
                             done(Exp::Ec(4096))
@@ -596,13 +648,19 @@ fn expected_outcome(rt: &RouteSpec, path: &str, bfmt: u16, body: &[u8]) -> Outco
         }
         HK::Struct => {
             let stateful = Outcome { dec: DecClass::Ok, exp: Exp::Stateful, closure: None, cl: "any".into() };
+            // the tree mount is stateless: its answer is computed here from the pointer below the mount
+            let tree = |b: Option<Value>| {
+                let exp = tree_expect(&path[rt.path.len()..], b);
+                let cl = match &exp { Exp::Ec(c) => format!("err:{}", c), _ => "ok".to_string() };
+                Outcome { dec: DecClass::Ok, exp, closure: None, cl }
+            };
             if body.is_empty() {
-                return stateful;
+                return if rt.var == 1 { tree(None) } else { stateful };
             }
             match dec_value(bfmt, body) {
                 None => fmt_err(),
                 Some(None) => bad(PARSE_ERROR),
-                Some(Some(_)) => stateful,
+                Some(Some(v)) => if rt.var == 1 { tree(Some(v)) } else { stateful },
             }
         }
     }
@@ -765,6 +823,18 @@ const ODD_PATHS: &[&[u8]] = &[
     b"/reg/missing", b"/reg/a~1b", b"/dex", b"/regx", b"/devx", b"/devrwx", b"/dev/nope", b"/nope", b"", b"/", b"json", b"/json/", b"/jsonx", b"/JSON",
     b"/\xff\xfe", b"\xc3\x28", b"/json\x00", b"/json\xc3", "/js\u{f6}n".as_bytes(), "/js\u{f6}n/\u{7801}/x".as_bytes(), b"/custom/sub", b"//json", b"/re", b"/de",
 ];
+/// A pointer into the tree mount: depth from the interesting set (the segment buffer of the struct dispatcher holds 16
+/// and spills beyond), every segment existing, or the k-th one (PRNG-chosen, often the 16th / 17th / last) not.
+fn gen_tree_path(r: &mut Rng) -> String {
+    let d = *r.pick(&[0usize, 1, 2, 15, 16, 17, 17, 18, 20, 21, 33, 40, 41]);
+    let mut segs: Vec<&str> = (0..d).map(|_| if r.chance(1, 2) { "n" } else { "m" }).collect();
+    if d > 0 && r.chance(2, 5) {
+        let k = match r.below(4) { 0 => d - 1, 1 => 15.min(d - 1), 2 => 16.min(d - 1), _ => r.below(d as u64) as usize };
+        segs[k] = *r.pick(&["x", "", "N", "n~0", "~1"]);
+    }
+    format!("/tree{}", segs.iter().map(|s| format!("/{s}")).collect::<String>())
+}
+
 const MOUNT_PATHS: &[&str] = &[
     "/reg/a", "/reg/a/b", "/reg/a/list/1", "/reg/f", "/reg/s", "/reg", "/de/v", "/re/v", "/dev/gain", "/dev/label", "/dev/hello", "/dev/add", "/dev", "/devrw/gain", "/devrw/label",
     "/devrw/add", "/devrw",
@@ -796,12 +866,13 @@ fn gen_request(r: &mut Rng, id: u64) -> ReqSpec {
     // path: mostly a registered route (exact or below a mount), else an unregistered / malformed one
     let query: Vec<u8> = match r.below(10) {
         0 | 1 => r.pick(ODD_PATHS).to_vec(),
-        2 | 3 | 4 => r.pick(MOUNT_PATHS).as_bytes().to_vec(),
+        2 | 3 => r.pick(MOUNT_PATHS).as_bytes().to_vec(),
+        4 => gen_tree_path(r).into_bytes(),
         9 if r.chance(1, 6) => format!("/missing/{}", "p".repeat(*r.pick(&[300usize, 9000, 70_000]))).into_bytes(),
         _ => loop {
             let rt = r.pick(EXACT);
             // the sentinel route, the 150 ms route and the panicking route are driven by their own scenarios
-            if !matches!(rt.path, "/__end" | "/slow_b" | "/panic_b" | "/panic") && (rt.path != "/slow" || r.chance(1, 4)) {
+            if !matches!(rt.path, "/__end" | "/slow_b" | "/panic_b" | "/panic" | "/gate_b") && (rt.path != "/slow" || r.chance(1, 4)) {
                 break rt.path.as_bytes().to_vec();
             }
         },
@@ -816,7 +887,7 @@ fn gen_request(r: &mut Rng, id: u64) -> ReqSpec {
     };
     // registry / struct state must evolve alike behind wrapped and bare routers: the gate middleware (wrapped only)
     // must not swallow a write the bare routers perform
-    if matches!(route, Some(rt) if matches!(rt.hk, HK::Registry | HK::Struct)) && gate_outcome(&body).is_some() {
+    if matches!(route, Some(rt) if (matches!(rt.hk, HK::Registry | HK::Struct) && rt.var != 1)) && gate_outcome(&body).is_some() {
         body[0] = b'%';
     }
     // any body under a body-format code the kind may not accept
@@ -1565,7 +1636,7 @@ fn run_sequence(out: &mut Out, sv: &Servers, probe: &Probes, seqno: usize, reqs:
             for (i, run) in runs.iter().enumerate() {
                 let base = if gated { ref_of(run.ep.wrapped) } else { 0 };
                 // `tcpx` serves only some sequences, so its registry / struct state lags behind the others'
-                let stateful = matches!(&exps[k], Some((rt, _, _, _)) if matches!(rt.hk, HK::Registry | HK::Struct));
+                let stateful = matches!(&exps[k], Some((rt, _, _, _)) if (matches!(rt.hk, HK::Registry | HK::Struct) && rt.var != 1));
                 if got[i] != got[base] && !(stateful && run.ep.partial()) { differ.push(run.ep.name); }
             }
             if !differ.is_empty() {
@@ -1596,7 +1667,7 @@ fn run_sequence(out: &mut Out, sv: &Servers, probe: &Probes, seqno: usize, reqs:
     if params.chunk != 0 { out.count("dispatch.chunked_sequences"); }
     // ---- a connection that has served other requests answers like a fresh one ---------------------
     if !pressure && seqno % 4 == 1 && healthy {
-        let pick = reqs.iter().enumerate().rev().find(|(k, r)| *k > 0 && r.h.notify != 1 && r.query != b"/slow" && !matches!(&exps[*k], Some((rt, _, _, _)) if matches!(rt.hk, HK::Registry | HK::Struct)));
+        let pick = reqs.iter().enumerate().rev().find(|(k, r)| *k > 0 && r.h.notify != 1 && r.query != b"/slow" && !matches!(&exps[*k], Some((rt, _, _, _)) if (matches!(rt.hk, HK::Registry | HK::Struct) && rt.var != 1)));
         if let Some((_, r)) = pick {
             let one = [r.clone()];
             let dispatched = exps[reqs.iter().position(|x| x.h.id == r.h.id).unwrap()].is_some() as u64;
@@ -1900,6 +1971,89 @@ fn shutdown_midflight(out: &mut Out, sv: &Servers, graceful: bool, n: usize, seq
     }
 }
 
+/// Saturated off-reader cap: `limit` handlers of ONE connection are parked on a gate (not on sleeps) when `extra` more
+/// non-notify off-reader requests and some inline ones arrive; then the gate opens. Whatever the server does with the
+/// extra ones (refuse with ResourceExhausted or run them), C03 still says: every request id gets exactly one response,
+/// a request that was answered with a refusal did not have its handler run, a request whose handler ran is answered
+/// with the handler's result. `limit == 0`: the server's default cap (16).
+fn saturate(out: &mut Out, sv: &Servers, limit: usize, extra: usize, wrapped: bool, seqno: usize) {
+    use tokio_tungstenite::tungstenite::Message as WsMsg;
+    let ops = vec![format!("saturate {} {} {} {}", seqno, limit, extra, wrapped as u8)];
+    let c = Counters::default();
+    let r = make_router(&c, wrapped);
+    let addr = sv.rt.block_on(async {
+        let l = tokio::net::TcpListener::bind("127.0.0.1:0").await.unwrap();
+        let a = l.local_addr().unwrap();
+        tokio::spawn(async move {
+            let mut s = repe::websocket_server::WebSocketServer::new(r);
+            if limit != 0 { s = s.with_offreader_limit(limit); }
+            let _ = s.serve_listener(l, "/repe").await;
+        });
+        a
+    });
+    let parked = if limit == 0 { 16 } else { limit };
+    let c2 = c.clone();
+    // (id, ec) of every response frame, in arrival order
+    let got: Option<Vec<(u64, u32)>> = sv.rt.block_on(async {
+        let mut ws = ws_connect(addr).await?;
+        let mut seen: Vec<(u64, u32)> = Vec::new();
+        for i in 0..parked {
+            ws.send(WsMsg::Binary(RawFrame::request(990_000 + i as u64, false, 1, b"/gate_b", 2, b"1").to_vec())).await.ok()?;
+        }
+        // all `parked` handlers are inside their closure (holding every permit) before anything else is sent
+        let t = Instant::now();
+        while c2.closure_count("/gate_b") < parked as u64 {
+            if t.elapsed() > Duration::from_secs(15) { return None; }
+            tokio::time::sleep(Duration::from_millis(3)).await;
+        }
+        for i in 0..extra {
+            ws.send(WsMsg::Binary(RawFrame::request(991_000 + i as u64, false, 1, b"/json_b", 2, format!("[{}]", i).as_bytes()).to_vec())).await.ok()?;
+            ws.send(WsMsg::Binary(RawFrame::request(992_000 + i as u64, false, 1, b"/json", 2, b"[0]").to_vec())).await.ok()?;
+        }
+        ws.send(WsMsg::Binary(sentinel(S1))).await.ok()?;
+        // read until the sentinel is answered (every frame was read, every refusal queued), give a late second answer
+        // a moment, open the gate, then read until all parked requests are answered and the line is quiet
+        let mut opened = false;
+        let mut quiet_since = Instant::now();
+        let t = Instant::now();
+        loop {
+            if t.elapsed() > Duration::from_secs(25) { break; }
+            match tokio::time::timeout(Duration::from_millis(50), ws.next()).await {
+                Ok(Some(Ok(WsMsg::Binary(b)))) => { let h = RawHeader::parse(&b)?; if h.notify == 0 { seen.push((h.id, h.ec)); } quiet_since = Instant::now(); }
+                Ok(Some(Ok(_))) => {}
+                Ok(None) | Ok(Some(Err(_))) => break,
+                Err(_) => {}
+            }
+            let have_s1 = seen.iter().any(|(id, _)| *id == S1);
+            if have_s1 && !opened && quiet_since.elapsed() > Duration::from_millis(150) { c2.open_gate(); opened = true; }
+            let gated_done = (0..parked).all(|i| seen.iter().any(|(id, _)| *id == 990_000 + i as u64));
+            let extras_done = (0..extra).all(|i| seen.iter().any(|(id, _)| *id == 991_000 + i as u64) && seen.iter().any(|(id, _)| *id == 992_000 + i as u64));
+            if opened && gated_done && extras_done && quiet_since.elapsed() > Duration::from_millis(400) { break; }
+        }
+        c2.open_gate();
+        Some(seen)
+    });
+    c.open_gate();
+    let Some(seen) = got else { out.count("dispatch.saturate.setup_failed"); return };
+    let count = |id: u64| seen.iter().filter(|(i, _)| *i == id).count();
+    let mut bad = Vec::new();
+    for i in 0..parked { if count(990_000 + i as u64) != 1 { bad.push(format!("parked request {} got {} responses", 990_000 + i as u64, count(990_000 + i as u64))); } }
+    let mut ran_expected = 0u64;
+    for i in 0..extra {
+        let id = 991_000 + i as u64;
+        if count(id) != 1 { bad.push(format!("off-reader request {} sent at the saturated cap got {} responses {:?}", id, count(id), seen.iter().filter(|(x, _)| *x == id).map(|(_, e)| *e).collect::<Vec<_>>())); }
+        if seen.iter().any(|(x, e)| *x == id && *e == 0) { ran_expected += 1; }
+        if count(992_000 + i as u64) != 1 { bad.push(format!("inline request {} got {} responses", 992_000 + i as u64, count(992_000 + i as u64))); }
+    }
+    // handlers of refused requests must not have run; handlers of answered ones ran once
+    std::thread::sleep(Duration::from_millis(100));
+    let ran = c.closure_count("/json_b");
+    if bad.is_empty() && ran != ran_expected { bad.push(format!("{} off-reader handlers ran but {} of the extra requests were answered with a handler result (the others were refused)", ran, ran_expected)); }
+    if bad.is_empty() { out.count(&format!("dispatch.saturate.ok.{}", limit)); } else {
+        out.oracle_fail("dispatch.saturate.refused_request_also_dispatched", &format!("cap {} ({}), {} extra: {}", limit, if wrapped { "wrapped" } else { "bare" }, extra, bad.join("; ")), &ops);
+    }
+}
+
 /// (j) Observer threads: route lookups and `execution()` on the very routers the servers dispatch through, all the
 /// time the sequences run. Every observation must be the registered table's answer.
 fn spawn_observers(sv: &Servers, stop: Arc<std::sync::atomic::AtomicBool>, bad: Arc<Mutex<Vec<String>>>, seen: Arc<std::sync::atomic::AtomicU64>) -> Vec<std::thread::JoinHandle<()>> {
@@ -2016,7 +2170,7 @@ fn gen_sized(r: &mut Rng, base_id: u64, thorough: bool) -> Vec<ReqSpec> {
                 mk(id, b"/json", 2, body)
             }
             2 => { let q = format!("/{}", "q".repeat(*r.pick(&[46usize, 47, 48, 8191 - 48, 8192 - 48]))); mk(id, q.as_bytes(), 2, b"{}".to_vec()) }
-            3 => { let q = format!("/dev{}", "/a".repeat(*r.pick(&[15usize, 16, 17, 20, 21]))); mk(id, q.as_bytes(), 2, Vec::new()) }
+            3 => { let q = gen_tree_path(r); mk(id, q.as_bytes(), 2, Vec::new()) }
             4 => { let n = if thorough || r.chance(1, 3) { *r.pick(&[16383usize, 16384]) } else { *r.pick(&[63usize, 64, 65]) }; mk(id, b"/slice", 1, enc_f64s(&vec![0.5; n])) }
             _ => mk(id, b"/typed", 2, b"{\"a\":1,\"b\":\"small\"}".to_vec()),
         });
@@ -2059,6 +2213,7 @@ fn main() {
                 Some("tcpteardown") => tcp_burst_then_garbage(&mut out, &sv, w[2], w[3].parse().unwrap(), 0),
                 Some("dupids") => dup_ids(&mut out, &sv, w[2].parse().unwrap(), w[3].parse().unwrap(), 0),
                 Some("panicws") => panic_offreader(&mut out, &sv, w[2], 0),
+                Some("saturate") => saturate(&mut out, &sv, w[2].parse().unwrap(), w[3].parse().unwrap(), w[4] == "1", 0),
                 Some("offfull") => offreader_backpressure(&mut out, &sv, w[2], w[3].parse().unwrap(), w[4].parse().unwrap(), 0),
                 Some("stall") => stalled_sender(&mut out, &sv, w[2], w[3].parse().unwrap(), w[4].parse().unwrap(), w[5] == "1", 0),
                 Some("tcppanic") => tcp_inline_panic(&mut out, &sv, w[2], w[3], 0),
@@ -2129,6 +2284,7 @@ fn main() {
                 1 => { let m = rng.range(3, 6) as usize; offreader_backpressure(&mut out, &sv, *rng.pick(&["wsq", "wsp", "wsb", "wsn"]), m, if args.thorough() { *rng.pick(&[400u64, 900]) } else { 350 }, s); }
                 6 => { let long = rng.chance(1, 2); let k = rng.range(0, 5) as usize; let cut = *rng.pick(&[1usize, 8, 47, 48, 49, 53, 56]); stalled_sender(&mut out, &sv, *rng.pick(&["tcps", "atcps"]), k, cut, long, s); }
                 8 => tcp_inline_panic(&mut out, &sv, *rng.pick(&["tcp", "tcpn", "atcp", "atcpn", "tcpw", "atcpw"]), *rng.pick(&["str", "any"]), s),
+                10 => { let limit = *rng.pick(&[1usize, 2, 4, 0]); let extra = rng.range(1, 3) as usize; saturate(&mut out, &sv, limit, extra, rng.chance(1, 2), s); }
                 14 => { let g = s % 32 == 14; let n = if g { rng.range(5, 9) } else { rng.range(2, 8) } as usize; shutdown_midflight(&mut out, &sv, g, n, s); }
                 _ => {}
             }
